@@ -538,3 +538,42 @@ package yang
 //@     body_ensures[created-linked] forall x *RPCEntry :: (old(x.Input) == nil && x.Input != nil ==> fresh(x.Input) && x.Input.Parent == old(e) && x.Input.Kind == InputEntry && x.Input.Name == "input" && x.Input.Dir != nil && x.Input.Node == old(e).Node)
 //@                 && (old(x.Output) == nil && x.Output != nil ==> fresh(x.Output) && x.Output.Parent == old(e) && x.Output.Kind == OutputEntry && x.Output.Name == "output" && x.Output.Dir != nil && x.Output.Node == old(e).Node)
 //@     body_ensures[tree-untouched] forall x *Entry :: allocated(x) ==> x.Parent == old(x.Parent) && x.Dir == old(x.Dir) && x.RPC == old(x.RPC) && x.Kind == old(x.Kind) && x.Name == old(x.Name)
+
+// ---------------------------------------------------------------------------
+// C04: proper trees, and a clean result means there were no errors.
+//
+//@ func (*Entry).errorf props C04
+//@   requires e != nil
+//@   ensures  len(e.Errors) == old(len(e.Errors)) + 1 && e.Errors[len(e.Errors)-1] != nil
+//@   ensures  forall i int :: 0 <= i && i < old(len(e.Errors)) ==> e.Errors[i] == old(e.Errors[i])
+//@   modifies e.Errors, elems(e.Errors)
+//@   safe
+//
+//@ func (*Entry).addError props C04
+//@   requires e != nil
+//@   ensures  err == nil ==> len(e.Errors) == old(len(e.Errors)) && e.Errors == old(e.Errors)
+//@   ensures  err != nil ==> len(e.Errors) == old(len(e.Errors)) + 1 && e.Errors[len(e.Errors)-1] == err
+//@   ensures  forall i int :: 0 <= i && i < old(len(e.Errors)) ==> e.Errors[i] == old(e.Errors[i])
+//@   modifies e.Errors, elems(e.Errors)
+//@   safe
+//
+// add files value under key and points it back at e; a key that is taken is
+// reported on e and the existing child stays.
+//@ func (*Entry).add props C04
+//@   requires e != nil && value != nil && e.Dir != nil
+//@   ensures  result == e && value.Parent == e
+//@   ensures  old(e.Dir[key]) == nil ==> e.Dir[key] == value && len(e.Errors) == old(len(e.Errors))
+//@   ensures  old(e.Dir[key]) != nil ==> e.Dir[key] == old(e.Dir[key]) && len(e.Errors) == old(len(e.Errors)) + 1
+//@   ensures  forall k string :: k != key ==> e.Dir[k] == old(e.Dir[k]) && has(e.Dir, k) == old(has(e.Dir, k))
+//@   ensures  e.Dir == old(e.Dir)
+//@   modifies value.Parent, contents(e.Dir), e.Errors, elems(e.Errors)
+//@   safe
+//
+//@ func (*Entry).delete props C04 C08
+//@   requires e != nil
+//@   ensures  !has(e.Dir, key) && e.Dir[key] == nil && e.Dir == old(e.Dir)
+//@   ensures  forall k string :: k != key ==> e.Dir[k] == old(e.Dir[k]) && has(e.Dir, k) == old(has(e.Dir, k))
+//@   ensures  old(has(e.Dir, key)) ==> len(e.Errors) == old(len(e.Errors))
+//@   ensures  !old(has(e.Dir, key)) ==> len(e.Errors) == old(len(e.Errors)) + 1
+//@   modifies contents(e.Dir), e.Errors, elems(e.Errors)
+//@   safe
